@@ -184,6 +184,8 @@ for k in ["pawn", "knight", "bishop", "rook", "queen", "king", "none"]:
 for k in ["pawn", "knight", "bishop", "rook", "queen", "king"]:
     ob("C12", "O-C12.status." + k, MG + "c12_status_" + k, "status() is one of the two rows of the Won/Drawn/Ongoing table for (in check, clock >= 100) and is the has-a-legal-move row whenever a legal %s move exists (loop-invariant VCs: no processed square has a legal move)" % k,
        ["Board::status", "Board::generate_moves", "Board::generate_moves_for"] + GENFNS[1:], timeout=3600, cut=True, flags=BF, expect_covers=0)
+ob("C12", "O-C12.status.double-check", MG + "c12_status_double_check", "in double check (only king steps can be legal: proved for a universally quantified move) status() == table(the king has a safe destination, in check, clock) - both directions, exact",
+   ["Board::status", "Board::generate_moves_for", "Board::add_king_legals", "Board::king_safe_on"], timeout=3600, cut=True, flags=BF)
 # ------------------------------------------------------------------------------------------- C15
 ob("C15", "O-C15.try_play", BD + "c15_try_play", "try_play consults is_legal once with the given move on the untouched board; Err iff the answer is no and then the board is bit-identical; Ok iff yes and then the board is exactly what play_unchecked produced (recording contract stubs)",
    ["Board::try_play"], timeout=900)
